@@ -1,7 +1,7 @@
 /-
 Model of the module-level state of `deferred.py` / `reports.py` and of the context
 managers that bracket every use of it: `try_compute` (depth counter, swallows
-`NotReadyError`), `Awaiting(d)` (stack + per-object flag, raises `DeferredCycle` on
+`NotReadyError` and a `DeferredCycle` met by the speculative attempt), `Awaiting(d)` (stack + per-object flag, raises `DeferredCycle` on
 re-entry), `handle_reports(h)` (handler stack, error latch, conversion of an error
 condition into `UnrecoverableError`), and `emit_report`.
 -/
@@ -59,7 +59,7 @@ def run : Comp â†’ St â†’ List (Nat Ã— Sev) â†’ (Option Exc Ã— St Ã— List (Nat Ã
     match run a { st with depth := st.depth + 1 } log with
     | (e, st', log') =>
       let st'' := { st' with depth := st'.depth - 1 }
-      (if e = some .notReady then none else e, st'', log')
+      (if e = some .notReady || e = some .cycle then none else e, st'', log')
   | .awaiting d a, st, log =>
     if st.awaiting.contains d then (some .cycle, st, log)
     else
